@@ -1064,6 +1064,17 @@ impl IceTransport {
                     .collect();
                 for wrapper in streams {
                     if let IceSocketWrapper::TcpStream(_, _, peer) = wrapper {
+                        // Connections are registered on accept, before a byte is read: honour only
+                        // one whose peer is a remote candidate — signalled, or learnt from a check
+                        // that passed the credential gate. A bare TCP connect nominates nothing.
+                        let known = inner
+                            .remote_candidates
+                            .lock()
+                            .iter()
+                            .any(|c| c.address == peer);
+                        if !known {
+                            continue;
+                        }
                         complete_controlled_inbound_tcp_nomination(&wrapper, peer, inner).await;
                         return;
                     }
